@@ -5,6 +5,7 @@ import (
 	"encoding/json"
 	"fmt"
 	"os"
+	"sync"
 
 	"github.com/cloudflare/circl/oprf"
 	"github.com/cloudflare/pat-go/tokens"
@@ -47,6 +48,9 @@ func execBatch(c *ctx, in ev) []ev {
 		iss1 := type1.NewBasicPrivateIssuer(k1)
 		iss2 := type2.NewBasicPublicIssuer(rsa0)
 		id1, id2 := iss1.TokenKeyID(), iss2.TokenKeyID()
+		// a type-1 key whose key id ends in the same byte as the type-2 key's
+		k1b := collidingP384Key(c.seed, id2[31])
+		iss1b := type1.NewBasicPrivateIssuer(k1b)
 		var issuers []batched.Issuer
 		switch cfg {
 		case "both":
@@ -57,6 +61,8 @@ func execBatch(c *ctx, in ev) []ev {
 			issuers = []batched.Issuer{batchIssuer2{iss2}}
 		case "firstfails":
 			issuers = []batched.Issuer{failingIssuer{1, id1}, batchIssuer1{iss1}, failingIssuer{2, id2}, batchIssuer2{iss2}}
+		case "crosscollide":
+			issuers = []batched.Issuer{batchIssuer2{iss2}, batchIssuer1{type1.NewBasicPrivateIssuer(k1b)}}
 		case "none":
 		}
 		unknown := byte(0)
@@ -72,7 +78,11 @@ func execBatch(c *ctx, in ev) []ev {
 		for _, k := range kinds {
 			switch k[0] {
 			case '1':
-				st, err := type1.NewBasicPrivateClient().CreateTokenRequest(randBytes(r, 10), randNonce(r), id1, iss1.TokenKey())
+				kk, ii, idd := k1, iss1, id1
+				if k == "1okB" {
+					kk, ii, idd = k1b, iss1b, iss1b.TokenKeyID()
+				}
+				st, err := type1.NewBasicPrivateClient().CreateTokenRequest(randBytes(r, 10), randNonce(r), idd, ii.TokenKey())
 				if err != nil {
 					panic(err)
 				}
@@ -85,7 +95,7 @@ func execBatch(c *ctx, in ev) []ev {
 				}
 				reqs = append(reqs, req)
 				fins = append(fins, fin{st.FinalizeToken, func(tok tokens.Token) bool {
-					return bytes.Equal(fullEvaluate(oprf.SuiteP384, k1, authInput(tok)), tok.Authenticator)
+					return bytes.Equal(fullEvaluate(oprf.SuiteP384, kk, authInput(tok)), tok.Authenticator)
 				}})
 			case '2':
 				st, err := type2.NewBasicPublicClient().CreateTokenRequest(randBytes(r, 10), randNonce(r), id2, iss2.TokenKey())
@@ -164,8 +174,8 @@ func genBatch(c *ctx, emit func(ev)) {
 	}
 	// longer seeded sequences
 	r := newRand(c.seed, "batch-long")
-	kinds := []string{"1ok", "1unk", "1bad", "2ok", "2unk", "2bad"}
-	cfgs := []string{"both", "t1only", "t2only", "firstfails", "none"}
+	kinds := []string{"1ok", "1unk", "1bad", "2ok", "2unk", "2bad", "1okB"}
+	cfgs := []string{"both", "t1only", "t2only", "firstfails", "none", "crosscollide"}
 	for i := 0; i < c.tierInt(20, 200); i++ {
 		n := 5 + r.Intn(8)
 		rs := []any{}
@@ -173,5 +183,27 @@ func genBatch(c *ctx, emit func(ev)) {
 			rs = append(rs, kinds[r.Intn(len(kinds))])
 		}
 		emit(ev{"op": "Batch", "bid": 100000 + i, "cfg": cfgs[r.Intn(len(cfgs))], "reqs": rs, "wire": i%2 == 0})
+	}
+}
+
+var (
+	collideMu   sync.Mutex
+	collideKeys = map[string]*oprf.PrivateKey{}
+)
+
+// collidingP384Key searches (once per seed) a P-384 VOPRF key whose key id ends in the given byte.
+func collidingP384Key(seed int64, last byte) *oprf.PrivateKey {
+	collideMu.Lock()
+	defer collideMu.Unlock()
+	id := fmt.Sprintf("%d/%d", seed, last)
+	if k, ok := collideKeys[id]; ok {
+		return k
+	}
+	for n := 0; ; n++ {
+		k := p384Key(seed, fmt.Sprintf("k1b-%d", n))
+		if type1.NewBasicPrivateIssuer(k).TokenKeyID()[31] == last {
+			collideKeys[id] = k
+			return k
+		}
 	}
 }
